@@ -210,7 +210,8 @@ def _texts(n):
         atoms = st.sampled_from(
             ["\n", "\r", "\r\n", " ", "\t", ",", "\x0c", "\x0b", "\x85", "\u2028", "\u2029",
              "\x1c", "\x1e", "a", "query", "{", "}", "(", ")", ":", "$", "#c", '"', '"""', "\\",
-             "1", "1.", "?", "\ufeff", "...", "@", "é", "😀", '"s"', '"""b\n c"""', "x:"]
+             "1", "1.", "?", "\ufeff", "...", "@", "\u00e9", "\U0001f600", '"s"', '"""b\n c"""', "x:",
+             '"""a\n\\"""b"""', '"""\r\n \\""" """', '\\"""', '"""\r', "\n\\\"\"\""]
         )
         text = st.lists(atoms, min_size=0, max_size=14).map("".join)
         name = st.sampled_from(["GraphQL request", "f.graphql", "a b", ""])
@@ -231,12 +232,107 @@ def _texts(n):
     return fn
 
 
+SCHEMA_SDL = """
+type Query { a: T, b(x: Int): Int, id: ID, name: String, f: [T], T: T, u: U }
+type T { a: T, x: Int, y: String, id: ID, name: String, b(x: Int, y: String): Int }
+type U { id: ID, c: Int }
+"""
+_schema = None
+
+
+def eval_document(tree, lay, name, off, cut):
+    """Token/node/error locations of a generated document (possibly cut short)."""
+    from graphql import build_schema, validate
+    from graphql.error import GraphQLSyntaxError
+    from graphql.language import Source, SourceLocation, parse, visit, Visitor
+
+    from vkit.gen import g1
+
+    global _schema
+    if _schema is None:
+        _schema = build_schema(SCHEMA_SDL)
+    text = g1.layout(g1.to_tokens(tree), lay)
+    if cut is not None:
+        text = text[: cut % (len(text) + 1)]
+    vs, nt = eval_text(text, name, off, all_offsets=False, do_parse=True)
+    case = {"text": text, "name": name, "offset": list(off)}
+    src = Source(text, name, SourceLocation(*off))
+    try:
+        doc = parse(src, experimental_fragment_arguments=bool(tree.get("frag_args")),
+                    experimental_directives_on_directive_definitions=bool(tree.get("dir_on_dir")))
+    except GraphQLSyntaxError:
+        return vs, nt, 1
+    except Exception:  # noqa: BLE001
+        return vs, nt, 1
+    n = 1
+    # every node's start token agrees with the reference location of its start offset
+    bad_nodes = []
+
+    class V(Visitor):
+        def enter(self, node, *_a):
+            l = node.loc
+            if l is not None and l.start_token.kind.value != "<SOF>":
+                want = loc(text, l.start)
+                if (l.start_token.line, l.start_token.column) != want:
+                    bad_nodes.append((node.kind, l.start, (l.start_token.line, l.start_token.column), want))
+
+    visit(doc, V())
+    for kind, k, got, want in bad_nodes[:1]:
+        vs.append(Violation(("C10", "node-start-token", offset_class(text, k)),
+                            f"node {kind} at {k}: start token says {got}, true {want} in {text!r}",
+                            case, {"class": offset_class(text, k), "relation": "node-start-token"}))
+    # validation errors are located at their nodes
+    try:
+        errors = validate(_schema, doc)
+    except Exception:  # noqa: BLE001
+        errors = []
+    for e in errors[:8]:
+        nodes = [nd for nd in (e.nodes or []) if nd.loc is not None]
+        if not nodes:
+            continue
+        n += 1
+        positions = [nd.loc.start for nd in nodes]
+        vs.extend(check_error(e, text, name, off, case, positions=positions))
+        if any(_nontrivial_prefix(text, p) for p in positions):
+            nt = True
+    return vs, nt, n
+
+
+def _documents(nex):
+    def fn(ctx, shard, nshards):
+        from vkit.gen import g1
+        from vkit.gen.choice import from_bytes
+
+        def dec(c):
+            tree = g1.g_document(c, mode=c.choose(["exec", "exec", "mixed", "sdl"]))
+            lay = c.ints(14)
+            name = c.choose(["GraphQL request", "f.graphql", "a b"])
+            off = [1, 1] if c.chance(100) else [c.count(1, 30), c.count(1, 30)]
+            cut = None if c.chance(140) else c.pick(4096)
+            return {"tree": tree, "lay": lay, "name": name, "off": off, "cut": cut}
+
+        def body(case):
+            vs, nt, k = eval_document(case["tree"], case["lay"], case["name"], tuple(case["off"]),
+                                      case["cut"])
+            ctx.count(k)
+            ctx.cls("cut" if case["cut"] is not None else "whole")
+            if nt:
+                ctx.nontriv(case, "document")
+            ctx.check(vs)
+
+        given_run(ctx, from_bytes(dec, 512), body, max_examples=nex)
+
+    return fn
+
+
 def subchecks(tier):
     if tier == "quick":
-        return [Sub("exhaustive", _exhaustive(5), shards=11, weight=3, exhaustive=True),
-                Sub("texts", _texts(6000), shards=5, weight=1)]
+        return [Sub("exhaustive", _exhaustive(5), shards=8, weight=3, exhaustive=True),
+                Sub("texts", _texts(6000), shards=4, weight=1),
+                Sub("documents", _documents(5000), shards=4, weight=2)]
     return [Sub("exhaustive", _exhaustive(6), shards=16, weight=3, exhaustive=True),
-            Sub("texts", _texts(80000), shards=16, weight=1)]
+            Sub("texts", _texts(80000), shards=16, weight=1),
+            Sub("documents", _documents(60000), shards=16, weight=2)]
 
 
 def replay(case):
